@@ -71,7 +71,13 @@ def main():
   errors = []
   for ci, c in enumerate(mine):
     try:
-      q = make_fixed(c)
+      if c.get("hist") == "reassign":
+        q = make_fixed(dict(c, bits=c["bits"] + 1, int=c["int"] + 1))
+        call(q, f32([0.3, -0.7, 5.0]))
+        q.bits = c["bits"]
+        q.integer = c["int"]
+      else:
+        q = make_fixed(c)
       full = (tier == "thorough") or c["bits"] <= 5
       x = np.concatenate([cell_inputs(c, rnd, full), random_inputs(c, rnd, 200 if tier == "quick" else 2000)])
       x = np.sort(x)
